@@ -26,6 +26,7 @@ RULE = (
     "as documented for Sort.then); where the order is total only through such earlier terms it is asserted only "
     "if the tree holds exactly one Sort node, i.e. the engine merged every sort into the outermost ORDER BY. "
     "  Directly adjacent sorts in the program are documented to merge (new terms first): where their concatenated terms order the rows totally, the order - and any slice of it - is asserted whatever the tree looks like; 5 % of the cases are directed pairs of adjacent sorts (plain column terms, then expression terms) on a chain or a table. "
+    "  2 % directed cases: a totally sorted (optionally sliced) table projected onto no columns, compiled with to_executable(extra_columns=<the table's own columns>): the fetched extra columns must come in the sort's order and window. "
 )
 ASSUMPTIONS = [
     "SQLite retains sub-query order in practice, so an order lost in a sub-query is not observable on this database: "
@@ -56,6 +57,24 @@ def gen_case(rng, tier):
         max_rows_choices=(0, 2, 3, 5, 8),
     )
     g = gen.Gen(rng, cfg)
+    if rng.random() < 0.02:
+        # directed: a sorted (and sliced) table projected onto NO columns, compiled with
+        # to_executable(extra_columns=...): the caller's own columns make the rows distinguishable, so
+        # the order and the window still have to be those of the sort
+        cols = sorted(rng.sample("abcd", rng.randint(2, 3)))
+        st = g.leaf("sql", want_cols=cols, allow_special=False)
+        cl = sorted(st[1])
+        terms = [[["ref", c], rng.random() < 0.5] for c in cl]
+        rng.shuffle(terms)
+        st = (["sort", st[0], terms, None], st[1], "sql")
+        if rng.random() < 0.7:
+            start = rng.choice([0, 1, 2])
+            st = (["slice", st[0], start, start + rng.choice([1, 2, 4])], st[1], "sql")
+        inner = st[0]
+        st = (["proj", st[0], [], None], frozenset(), "sql")
+        case = gen.case_from(g, st)
+        case["extra_columns_probe"] = {"inner": inner, "cols": cl}
+        return case
     if rng.random() < 0.05:
         # directed: two directly adjacent sorts (plain column terms, then terms that may be
         # expressions) on a chain or a single table, optionally followed by a slice
@@ -129,6 +148,25 @@ def run_case(case):
             else:
                 out["violations"].append({"kind": "rejected_valid_program", "detail": f"{exc_str(f.exc)} at {model.show(f.prog)}"})
                 return out
+        probe = case.get("extra_columns_probe")
+        if probe and rel is not None:
+            from ..tags import T
+
+            try:
+                inner = probe["inner"]
+                leaf_name = inner[1][1][1] if inner[0] == "slice" else inner[1][1]
+                tbl = b.leaf_payloads[leaf_name].from_clause
+                extra = [tbl.columns[x].label(f"x_{x}") for x in probe["cols"]]
+                ex = engines["sql"].to_executable(rel, extra_columns=extra)
+                got = [tuple(r[f"x_{x}"] for x in probe["cols"]) for r in db.conn.execute(ex).mappings()]
+                want_p = model.Model(case["leaves"], sql_slices=True).eval(inner)
+                c["extra_columns_probes"] = 1
+                if got != [tuple(r[x] for x in probe["cols"]) for r in want_p.rows]:
+                    out["violations"].append({"kind": "order_not_honoured_with_extra_columns", "detail": f"{label} compiled with extra_columns: got {short(got, 200)} want {short([tuple(r[x] for x in probe['cols']) for r in want_p.rows], 200)}; sql {short(db.text(ex), 300)}"})
+            except model.Skip:
+                pass
+            except Exception as exc:  # noqa: BLE001
+                out["violations"].append({"kind": "extra_columns_compile_raised", "detail": f"{label}: {exc_str(exc)}"})
         # (c) structure of everything that was built (also the parts built before a refusal)
         for sub, subrel in b.nodes:
             c["trees_structurally_checked"] = c.get("trees_structurally_checked", 0) + 1
